@@ -58,13 +58,13 @@ fn tree_update<const N: usize>(kl: [usize; N], vl: [usize; N], i: usize, nv: usi
     let _ = free;
 }
 
-// @vt prop=C28,C29 tier=quick feat=sp fs=600 bound="BTree::update on a root leaf of shape keys(2,3,5)/values(3,1,2): same size, shrink, and grow with ample room (entry 1: 1 -> 3 bytes)" outside="other shapes; trees with interior pages" timeout=1200 mem=16
+// @vt prop=C28,C29 tier=quick feat=sp fs=600 bound="BTree::update on a root leaf of shape keys(2,3,5)/values(3,1,2): same size, shrink, and grow with ample room (entry 1: 1 -> 3 bytes)" outside="other shapes; trees with interior pages" timeout=1800 mem=16
 vt_proof_pg_findspec! { unwind = 10; fn c28_tree_update_roomy() {
     tree_update::<3>([2, 3, 5], [3, 1, 2], 0, 3, PAGE_SIZE); tree_update::<3>([2, 3, 5], [3, 1, 2], 2, 0, PAGE_SIZE);
     tree_update::<3>([2, 3, 5], [3, 1, 2], 1, 3, PAGE_SIZE);
 }}
 
-// @vt prop=C28,C29 tier=quick feat=sp fs=600 bound="BTree::update growing a value (1 -> 3 bytes) on a NEARLY FULL root leaf of shape keys(3,3)/values(1,1): free space 2..=16 bytes in steps that straddle 'increase fits' / 'new cell fits'" outside="other shapes" timeout=1200 mem=16
+// @vt prop=C28,C29 tier=quick feat=sp fs=600 bound="BTree::update growing a value (1 -> 3 bytes) on a NEARLY FULL root leaf of shape keys(3,3)/values(1,1): free space 2..=16 bytes in steps that straddle 'increase fits' / 'new cell fits'" outside="other shapes" timeout=1800 mem=16
 vt_proof_pg_findspec! { unwind = 10; fn c28_tree_update_grow_nearly_full() {
     // cells: 2 * (3+1+1) = 10 bytes below top; header+slots = 24 + 16 = 40; free = top - 10 - 40
     let which: u8 = kani::any(); kani::assume(which < 4);
@@ -106,7 +106,7 @@ fn tree_delete_get<const N: usize>(kl: [usize; N], vl: [usize; N], i: usize, pre
     }
 }
 
-// @vt prop=C28,C29 tier=quick feat=sp fs=600 bound="BTree::get + BTree::delete on a root leaf of shape keys(2,3,5)/values(3,1,2): each present key, and an absent 3-byte key at each gap" outside="other shapes; trees with interior pages" timeout=1200 mem=16
+// @vt prop=C28,C29 tier=quick feat=sp fs=600 bound="BTree::get + BTree::delete on a root leaf of shape keys(2,3,5)/values(3,1,2): each present key, and an absent 3-byte key at each gap" outside="other shapes; trees with interior pages" timeout=1800 mem=16
 vt_proof_pg_findspec! { unwind = 10; fn c28_tree_get_delete() {
     tree_delete_get::<3>([2, 3, 5], [3, 1, 2], 0, true); tree_delete_get::<3>([2, 3, 5], [3, 1, 2], 2, true);
     tree_delete_get::<3>([2, 3, 5], [3, 1, 2], 1, false); tree_delete_get::<3>([2, 3, 5], [3, 1, 2], 3, false);
@@ -143,7 +143,7 @@ fn tree_insert<const N: usize>(kl: [usize; N], vl: [usize; N], c: usize, unique_
     }
 }
 
-// @vt prop=C28,C29 tier=quick feat=sp fs=600 bound="BTree::insert and insert_if_not_exists (no split) on a root leaf of shape keys(2,3,5)/values(3,1,2): new 4-byte key at positions 0 and 2, and a duplicate of entry 1" outside="other shapes; splits" timeout=1200 mem=16
+// @vt prop=C28,C29 tier=quick feat=sp fs=600 bound="BTree::insert and insert_if_not_exists (no split) on a root leaf of shape keys(2,3,5)/values(3,1,2): new 4-byte key at positions 0 and 2, and a duplicate of entry 1" outside="other shapes; splits" timeout=1800 mem=16
 vt_proof_pg_findspec! { unwind = 10; fn c28_tree_insert_no_split() {
     tree_insert::<3>([2, 3, 5], [3, 1, 2], 0, false, false); tree_insert::<3>([2, 3, 5], [3, 1, 2], 2, true, false);
     tree_insert::<3>([2, 3, 5], [3, 1, 2], 1, true, true); tree_insert::<3>([2, 3, 5], [3, 1, 2], 1, false, true);
